@@ -10,7 +10,7 @@ Two arithmetic backends produce the terms:
   INT — mathematical integers, every operation reduced mod 2^w explicitly (keeps wrap-around
         semantics; used where bit-blasting wide multiplication / symbolic remainder times out)
 """
-import re, copy, itertools
+import re, copy, itertools, os
 import z3
 
 
@@ -356,8 +356,15 @@ class MirFile:
         for m in re.finditer(r"^fn (.+?) \{$", self.text, re.M):
             self.headers.append((m.start(), m.group(1)))
         self.promoted = {}
+        self.consts = []
         for m in re.finditer(r"^const (.+?::promoted\[\d+\]): (.+?) = \{$", self.text, re.M):
             self.promoted[m.group(1)] = (m.start(), m.group(2))
+        for m in re.finditer(r"^const (.+): (.+?) = \{$", self.text, re.M):
+            if "::promoted[" not in m.group(1):
+                self.consts.append((m.start(), m.group(1), m.group(2)))
+        self.simple_consts = []
+        for m in re.finditer(r"^const (.+): (.+?) = const (.+);$", self.text, re.M):
+            self.simple_consts.append((m.group(1), m.group(2), m.group(3)))
 
     def find_promoted(self, fn_name, idx):
         key = f"{fn_name}::promoted[{idx}]"
@@ -395,8 +402,11 @@ class MirFile:
             if hn == callee or hn.endswith("::" + name) or hn == name:
                 hits.append((pos, h))
         if len(hits) > 1 and len(last2) == 2:
-            # disambiguate by the type name appearing in the impl path / self type
-            hits2 = [(p, h) for p, h in hits if last2[0].split("<")[0] in h]
+            # disambiguate by the impl block's source line (`<impl at FILE:LINE:..>` must be an impl for that type)
+            tyname = last2[0].split("<")[0]
+            hits2 = [(p, h) for p, h in hits if impl_line_mentions(h, tyname)]
+            if not hits2:
+                hits2 = [(p, h) for p, h in hits if tyname in h.split("(")[0]]
             if hits2:
                 hits = hits2
         if len(hits) == 0:
@@ -408,6 +418,17 @@ class MirFile:
         if len(hits) != 1:
             raise Unsupported(f"call target {callee!r} resolves to {len(hits)} MIR functions")
         return self.find("^" + re.escape(hits[0][1]) + "$")
+
+
+def impl_line_mentions(header, tyname):
+    mm = re.search(r"<impl at ([^:>]+):(\d+):", header)
+    if not mm:
+        return False
+    try:
+        line = open(os.path.join("/repo", mm.group(1))).read().split("\n")[int(mm.group(2)) - 1]
+    except Exception:
+        return False
+    return re.search(r"\bimpl\b.*\b" + re.escape(tyname) + r"\b", line) is not None
 
 
 def parse_fn(text):
@@ -692,15 +713,33 @@ class Interp:
             return VariantView(v.payloads[idx])
         if k == "index_const":
             if isinstance(v, Tup):
+                if proj[1] >= len(v.f):
+                    raise Panic(f"index out of bounds: {proj[1]} >= {len(v.f)}")
                 return v.f[proj[1]]
             if isinstance(v, Seq):
+                if proj[1] >= len(v.items):
+                    raise Panic(f"index out of bounds: {proj[1]} >= {len(v.items)}")
                 return v.items[proj[1]]
         raise Unsupported(f"projection {proj} on {v}")
+
+    def _resolve_indices(self, p, pr):
+        out = []
+        for x in pr:
+            if x[0] == "index_local":
+                iv = p.locals[x[1]].v
+                t = z3.simplify(iv.t)
+                if not (z3.is_bv_value(t) or z3.is_int_value(t)):
+                    raise Unsupported("array index is not concrete on this path")
+                out.append(("index_const", t.as_long()))
+            else:
+                out.append(x)
+        return out
 
     def read_place(self, p, s):
         l, pr = self.parse_place(s)
         if l not in p.locals:
             raise Unsupported(f"read of uninitialised local _{l}")
+        pr = self._resolve_indices(p, pr)
         v = p.locals[l].v
         for x in pr:
             v = self._walk(v, x)
@@ -710,6 +749,7 @@ class Interp:
 
     def write_place(self, p, s, val):
         l, pr = self.parse_place(s)
+        pr = self._resolve_indices(p, pr)
         if not pr:
             if l in p.locals:
                 p.locals[l].v = val
@@ -783,6 +823,9 @@ class Interp:
             else:
                 v = -(1 << (w - 1)) if s else 0
             return self.const_int(v, m.group(1))
+        m = re.match(r"core::num::<impl (\w+)>::(MAX|MIN)$", c)
+        if m and m.group(1) in INT_TYPES:
+            return self.constant(f"{m.group(1)}::{m.group(2)}")
         if c == "()":
             return Unit()
         m = re.match(r"(?:std::num::|core::num::)?Wrapping::<(\w+)>\((.+)\)$", c)
@@ -798,7 +841,48 @@ class Interp:
             return self.const_int(ord(m.group(1)), "char")
         if c in self.models.get("__consts__", {}):
             return copy_value(self.models["__consts__"][c])
+        ac = self.assoc_const(c)
+        if ac is not None:
+            return ac
         raise Unsupported("constant " + c)
+
+    def assoc_const(self, c):
+        """associated / free constants of the crate: `path::Type::NAME` -> the MIR const body `const <...>::NAME: T = {`"""
+        m = re.match(r"(?:[\w]+::)*(\w+)::([A-Z_][A-Z0-9_]*)$", c)
+        if not m:
+            return None
+        name, tyname = m.group(2), m.group(1)
+        for mf in [self.mir] + self.mir.others:
+            hits = [(pos, h, ty) for pos, h, ty in getattr(mf, "consts", []) if h.endswith("::" + name)]
+            hits += [(None, h, (ty, val)) for h, ty, val in getattr(mf, "simple_consts", []) if h.endswith("::" + name)]
+            if len(hits) > 1:
+                # disambiguate by the impl block's source line: `<impl at FILE:LINE:..>` must be an impl of `tyname`
+                keep = []
+                for pos, h, ty in hits:
+                    mm = re.search(r"<impl at ([^:>]+):(\d+):", h)
+                    if mm:
+                        try:
+                            line = open(os.path.join("/repo", mm.group(1))).read().split("\n")[int(mm.group(2)) - 1]
+                        except Exception:
+                            line = ""
+                        if re.search(r"\b" + re.escape(tyname) + r"\b", line):
+                            keep.append((pos, h, ty))
+                    elif tyname in h:
+                        keep.append((pos, h, ty))
+                hits = keep
+            if len(hits) == 1 and hits[0][0] is None:
+                return self.constant(hits[0][2][1])
+            if len(hits) == 1:
+                pos, h, ty = hits[0]
+                end = mf.text.index("\n}\n", pos) + 3
+                body = mf.text[pos:end].split("\n", 1)[1]
+                body = re.sub(r"^\s*Storage(Live|Dead)\(_\d+\);\n", "", body, flags=re.M)
+                fn = parse_fn(f"fn {h}() -> {ty} {{\n" + body)
+                sub = Interp(mf, self.be, self.models, self.inline, registry=self.registry)
+                paths = sub.run(fn, [])
+                if len(paths) == 1 and paths[0].outcome[0] == "return":
+                    return paths[0].outcome[1]
+        return None
 
     # ---- rvalues
     def rvalue(self, fn, p, s, dest_ty):
@@ -848,6 +932,12 @@ class Interp:
             if isinstance(v, Enum):
                 return v.discr
             raise Unsupported("discriminant of " + repr(v))
+        m = re.match(r"PtrMetadata\((.+)\)$", s)
+        if m:
+            v = self.operand(p, m.group(1))
+            if isinstance(v, Tup) and v.name == "Slice":
+                return v.f[2]
+            raise Unsupported("PtrMetadata of " + repr(v))
         # unary
         m = re.match(r"(Not|Neg)\((.+)\)$", s)
         if m:
